@@ -108,7 +108,7 @@ def shard_fn(shard, nshards, seed, tier, exe, ndocs):
                 cmds.append("P %d 0 1 x%s" % (3 | u8, h))
             cases.append((cid, cmds))
             meta[cid] = (kind, ctx, vt, neutral, extra, expd, text)
-    results, crashes = core.run_script(exe, cases, tag="c16")
+    results, crashes = core.run_script(exe, cases, tag="c16", env=core.ambient_env(sh, shard))
     cmdmap = dict(cases)
     for cr in crashes:
         k, frame = cr.summary()
